@@ -11,7 +11,7 @@ X02Thorough ==
   \cup ListCases({"C", "P", "L"}, ArgSetsT(0), 0)
   \cup PredCases({"C", "P", "L"}, 0)
   \cup CallCases({MF, MG, MD, MH, M3, MHf, FnM, PFG}, 2, CallExtraT(0), {"sym", "num"})
-  \cup CallCases({MF, MG, FnM}, 3, {}, {"sym"})
+  \cup CallCases({MF, MG, MD, M3, FnM}, 3, {}, {"sym"})
   \cup ZfCases(NumsT(0), DensT(0)) \cup ZPowCases(-4..4)
   \cup LinCases(FPolysT(0), LinDens(0))
   \cup NormRuns(DesignCases({ <<3, <<Inf>> >>, <<4, <<2>> >>, <<2, <<3>> >>, <<0, <<Inf>> >>, <<5, <<5>> >>, <<6, <<0>> >>,
